@@ -123,27 +123,22 @@ impl PageCache {
             return Ok(None);
         };
 
-        let mut found_victim = None;
-        // Attempt to iterate over all the frames.
-        while self.cursor <= self.frames.len() && found_victim.is_none() {
-            if let Some((pid, frame)) = self.frames.get_index(self.cursor) {
-                if frame.is_free() {
-                    self.stats.eviction();
+        // Clock sweep: look at every frame once, starting at the cursor and wrapping around.
+        let num_frames = self.frames.len();
+        for step in 0..num_frames {
+            let index = (self.cursor + step) % num_frames;
+            let is_free = self
+                .frames
+                .get_index(index)
+                .is_some_and(|(_, frame)| frame.is_free());
 
-                    let (_, victim) = self.frames.swap_remove_index(self.cursor).unwrap();
-
-                    found_victim = Some(victim);
-                    break;
-                }
-            };
-
-            // Not evictable.
-            self.cursor += 1;
+            if is_free {
+                self.stats.eviction();
+                let (_, victim) = self.frames.swap_remove_index(index).unwrap();
+                self.cursor = index;
+                return Ok(Some(victim));
+            }
         }
-
-        if found_victim.is_some() {
-            return Ok(found_victim);
-        };
 
         Err(IoError::new(
             ErrorKind::OutOfMemory,
